@@ -96,6 +96,8 @@ pub fn alphabet() -> Vec<St> {
   v.push(St { text: "(b, c) := (1, 2)".into(), k: K::DestructLit(2), targets: vec!["b", "c"], reads: vec![], tmpl: "destructure" });
   v.push(St { text: "(a, b, c) := (1, 2)".into(), k: K::DestructLit(2), targets: vec!["a", "b", "c"], reads: vec![], tmpl: "destructure(arity-error)" });
   v.push(St { text: "(c, a) := (1, 2)".into(), k: K::DestructLit(2), targets: vec!["c", "a"], reads: vec![], tmpl: "destructure" });
+  v.push(St { text: "(b, b) := (1, 2)".into(), k: K::DestructLit(2), targets: vec!["b", "b"], reads: vec![], tmpl: "destructure(repeated-name)" });
+  v.push(St { text: "(c, b, c) := (1, 2, 1)".into(), k: K::DestructLit(3), targets: vec!["c", "b", "c"], reads: vec![], tmpl: "destructure(repeated-name)" });
   v.push(St { text: "(b, c) := a".into(), k: K::DestructName, targets: vec!["b", "c"], reads: vec!["a"], tmpl: "destructure-name" });
   // kind-annotated copies (the conversion step is what gives the new name its own storage)
   for (n, m, k) in [("b", "a", "f64"), ("c", "a", "f64"), ("b", "a", "string"), ("c", "b", "f64")] {
@@ -318,7 +320,8 @@ impl UnitRunner for C05 {
             K::IndexAssign | K::OpAssign | K::FieldAssign => { let n = st.targets[0]; (!defined(n) || !mutable(n) || !reads_ok, false, vec![(n.to_string(), None, None)]) }
             K::DestructLit(arity) => {
               let any_def = st.targets.iter().any(|n| defined(n));
-              let bad = any_def || st.targets.len() != *arity;
+              let repeated = st.targets.iter().enumerate().any(|(i, n)| st.targets[..i].contains(n));
+              let bad = any_def || st.targets.len() != *arity || repeated;
               let vals = [Canon::Num("f64".into(), "1.0".into()), Canon::Num("f64".into(), "2.0".into())];
               (bad, !bad, st.targets.iter().enumerate().map(|(i, n)| (n.to_string(), vals.get(i).cloned(), Some(false))).collect())
             }
